@@ -322,6 +322,47 @@ func init() {
 		}
 		return Outcome{Err: errText(err), DVal: DecVal(a.D)}
 	})
+	reg("NullScan", KDecSet, false, false, true, func(a *Args) Outcome {
+		var nd apd.NullDecimal
+		nd.Decimal.Set(a.D) // the embedded Decimal starts from the destination's prior content
+		var src interface{}
+		switch uint64(a.N) % 6 {
+		case 0:
+			src = nil
+		case 1:
+			src = a.S
+		case 2:
+			src = []byte(a.S)
+		case 3:
+			src = a.N
+		case 4:
+			src = float64(a.N) / 8
+		default:
+			src = true // unsupported type
+		}
+		err := nd.Scan(src)
+		o := Outcome{Err: errText(err), Aux: fmt.Sprint(nd.Valid)}
+		if err == nil {
+			// after a failed Scan the embedded Decimal is unspecified
+			v, err2 := nd.Value()
+			o.Aux += fmt.Sprint(" ", v)
+			o.Err += errText(err2)
+		}
+		if err != nil || !nd.Valid {
+			a.D.SetInt64(0)
+			a.D.Exponent = 0
+		} else {
+			a.D.Set(&nd.Decimal)
+		}
+		o.DVal = DecVal(a.D)
+		return o
+	})
+	reg("CondInfo", KRead1, false, false, false, func(a *Args) Outcome {
+		c := apd.Condition(uint32(a.N) & 0xfff)
+		_, e1 := c.GoError(apd.Condition(uint32(a.N>>12) & 0xfff))
+		return Outcome{Aux: fmt.Sprint(c.Any(), c.SystemOverflow(), c.SystemUnderflow(), c.Overflow(), c.Underflow(), c.Inexact(), c.Subnormal(), c.Rounded(),
+			c.DivisionUndefined(), c.DivisionByZero(), c.DivisionImpossible(), c.InvalidOperation(), c.Clamped(), c.String(), apd.Form(a.N%5).String(), a.X.Form.String()), Err: errText(e1)}
+	})
 	reg("Compose", KDec2, false, false, true, func(a *Args) Outcome {
 		// round trip X through Decompose/Compose into D
 		form, neg, coeff, exp := a.X.Decompose(nil)
